@@ -12,7 +12,7 @@ LEVEL_TEXT = ("Programs of 2-6 angular-spectrum steps whose distances (both sign
               "the input up to a constant phase (an algebraic identity, checked to rounding on arbitrary fields); grids finer than the wavelength and problems stated in nm..pm units (steps down to 1e-12) are included and a step must not depend on the length unit. Pairs of propagators are "
               "compared on coinciding grids with off-axis, asymmetric fields so that flips, transposes and conjugations show; all four are "
               "compared with the analytic off-axis, tilted Gaussian beam (amplitude, width, curvature, Gouy phase, position) on beams that "
-              "are resolved by construction in every plane touched, and the lens with the Airy pattern. Exploration over programs.")
+              "are resolved by construction in every plane touched, and the lens with the Airy pattern. Fields stored in single precision (complex64, float32) obey the inverse law and give the result of the same samples in double precision, to the rounding of the returned dtype. Exploration over programs.")
 LEVEL_NOTE = "Trusted: closed-form Gaussian beam in the e^{+ik r^2/2z} convention of the module (no e^{ikz}); scipy J1. Sampling margins are part of the generator, no case is skipped as unresolved."
 RULE = "case = (clause, N, wavelength, spacing(s), distance(s), magnification, field / beam parameters); non-trivial when the field is not point-symmetric; distinct by parameters"
 ASSUMPTIONS = ["even square grids"]
